@@ -206,6 +206,74 @@ func withoutSteps(p *Plan, drop map[int]bool) *Plan {
 }
 
 // minimise is delta debugging over plan steps, then simplification of knobs.
+// minimiseOps is delta debugging over the scenario-generated operations (cfg.op_skip).
+func (o *DriveOpts) minimiseOps(p *Plan, sig string, ops int, budget int) (*Plan, int) {
+	used := 0
+	keep := make([]int, 0, ops)
+	skipped := map[int]bool{}
+	for _, s := range p.Cfg.OpSkip {
+		skipped[s] = true
+	}
+	for i := 0; i < ops; i++ {
+		if !skipped[i] {
+			keep = append(keep, i)
+		}
+	}
+	mk := func(keep []int) *Plan {
+		q := clonePlan(p)
+		in := map[int]bool{}
+		for _, k := range keep {
+			in[k] = true
+		}
+		q.Cfg.OpSkip = nil
+		for i := 0; i < ops; i++ {
+			if !in[i] {
+				q.Cfg.OpSkip = append(q.Cfg.OpSkip, i)
+			}
+		}
+		return q
+	}
+	n := 2
+	for len(keep) >= 2 && used < budget {
+		chunk := (len(keep) + n - 1) / n
+		var cands []*Plan
+		var kept [][]int
+		for start := 0; start < len(keep); start += chunk {
+			var k2 []int
+			k2 = append(k2, keep[:start]...)
+			if start+chunk < len(keep) {
+				k2 = append(k2, keep[start+chunk:]...)
+			}
+			cands = append(cands, mk(k2))
+			kept = append(kept, k2)
+		}
+		recs := o.runPlans(cands, false)
+		used += len(cands)
+		found := -1
+		for i, r := range recs {
+			if hasSig(r, sig) {
+				found = i
+				break
+			}
+		}
+		if found >= 0 {
+			keep = kept[found]
+			if n > 2 {
+				n--
+			}
+			continue
+		}
+		if chunk == 1 {
+			break
+		}
+		n *= 2
+		if n > len(keep) {
+			n = len(keep)
+		}
+	}
+	return mk(keep), used
+}
+
 func (o *DriveOpts) minimise(p *Plan, sig string, budget int) (*Plan, int) {
 	cur := p
 	used := 0
@@ -460,6 +528,13 @@ func Drive(o *DriveOpts) int {
 			mp, _ := o.minimise(plan, s, 160)
 			if len(mp.Steps) < orig {
 				minimised = true
+			}
+			if len(plan.Steps) == 0 && si.first.Ops > 1 {
+				orig = si.first.Ops
+				mp, _ = o.minimiseOps(mp, s, si.first.Ops, 120)
+				if len(mp.Cfg.OpSkip) > 0 {
+					minimised = true
+				}
 			}
 			// replay twice in fresh processes: signature and trace hash must repeat
 			rr := o.runPlans([]*Plan{mp, mp}, false)
